@@ -525,6 +525,35 @@ pub fn run(cfg: &Config) -> i32 {
             }
         }
     }
+    // sparse envelopes: a block 3 / block 5 that is present but empty, or carries a single tag only
+    // (present-but-empty and absent are different parse results and must stay apart over a round trip)
+    {
+        let bodies: Vec<(String, String)> = {
+            let mut seen = std::collections::BTreeSet::new();
+            c.entries
+                .iter()
+                .filter(|e| seen.insert(e.mt.clone()))
+                .filter_map(|e| corpus::block4_of(&e.text).map(|b| (e.mt.clone(), tok::render(&tok::tokenize(&b).fields, false, false))))
+                .collect()
+        };
+        let mut k = 0usize;
+        let mut b3s: Vec<String> = vec![String::new(), "{3:}".into(), "{3:{999:UNKNOWN}}".into()];
+        for t in super::c10::B3_TAGS {
+            b3s.push(format!("{{3:{{{t}:{}}}}}", super::c10::b3_value(t, 5)));
+        }
+        let mut b5s: Vec<String> = vec![String::new(), "{5:}".into(), "{5:{ZZZ:UNKNOWN}}".into()];
+        for t in super::c10::B5_TAGS {
+            b5s.push(format!("{{5:{{{t}:{}}}}}", super::c10::b5_value(t, 5)));
+        }
+        for b3 in &b3s {
+            for b5 in &b5s {
+                k += 1;
+                let (mt, b4) = &bodies[k % bodies.len()];
+                let text = format!("{{1:{}}}{{2:{}}}{b3}{{4:\n{b4}\n-}}{b5}", super::c10::block1(k, false), super::c10::block2_input(mt, k, 17));
+                cases.push(("full/sparse-envelope".into(), Case::Full { text }));
+            }
+        }
+    }
     // field level: every corpus content and its tweaks through every type sharing the tag number
     let stride = 1;
     for (i, (tag, content)) in contents.iter().enumerate() {
